@@ -44,6 +44,8 @@ impl ExecutionFrontier {
         }
 
         self.executed[index].store(true, Ordering::Release);
+        #[cfg(feature = "verif")]
+        crate::verif::point(crate::verif::Point::FrontierAfterStore, index, 0);
         // Reload after publishing. The frontier may have reached `index` between the first load
         // and the store; using the stale value would leave the newly filled gap unadvanced.
         let frontier = self.frontier.load(Ordering::Acquire);
@@ -106,8 +108,14 @@ impl SchedulerContext {
         // Publish invalidation before making the index claimable. Finality advances contiguously
         // and checks status plus this timestamp under transaction locks, so a validation predating
         // this rewind cannot enter the stable prefix afterward.
+        #[cfg(feature = "verif")]
+        crate::verif::event(crate::verif::Event::Rewind { index });
         let timestamp = self.logical_clock.fetch_add(1, Ordering::AcqRel);
+        #[cfg(feature = "verif")]
+        crate::verif::point(crate::verif::Point::RewindAfterTick, index, timestamp);
         self.lower_timestamps[index].fetch_max(timestamp, Ordering::AcqRel);
+        #[cfg(feature = "verif")]
+        crate::verif::point(crate::verif::Point::RewindAfterLowerTs, index, timestamp);
         let previous = self.validation.rewind(index);
         if previous > index {
             self.validation_resets.fetch_add(1, Ordering::Relaxed);
